@@ -10,8 +10,8 @@ int main(void) {
   char host[NS]; char m0[NS], m1[NS], mh[NS];
   IN(long, base0); IN(long, size0); IN(long, base1); IN(long, size1);
   IN(long, count); IN(long, off); IN(long, off2); IN(long, wcount); IN(long, woff);
-  VASSUME(base0 >= 0 && size0 >= 0 && base0 + size0 <= NS && size0 % D0 == 0);
-  VASSUME(base1 >= 0 && size1 >= 0 && base1 + size1 <= NS && size1 % D1 == 0);
+  VASSUME(base0 >= 0 && base0 <= NS && size0 >= 0 && size0 <= NS && base0 + size0 <= NS && size0 % D0 == 0);
+  VASSUME(base1 >= 0 && base1 <= NS && size1 >= 0 && size1 <= NS && base1 + size1 <= NS && size1 % D1 == 0);
   VASSUME(count >= -2 && count <= NS + 2 && off >= -2 && off <= NS + 2 && off2 >= -2 && off2 <= NS + 2 && wcount >= -2 && wcount <= NS + 2 && woff >= -2 && woff <= NS + 2);
   for (int i = 0; i < NS; i++) { m0[i] = s0[i]; m1[i] = s1[i]; host[i] = 0; mh[i] = 0; }
   b_setup(s0, NS, s1, NS, base0, size0, D0, base1, size1, D1);
